@@ -47,10 +47,31 @@ def _worker(case):
                              diff=float(diff))
             return float(diff)
 
+    # history: the judged fit may be a re-fit of an object that was fitted before with other smoothing parameters
+    # (set through the public term attributes) or on other data; the optimum is that of the model as it is specified now
+    hist = case.get('history', 'none')
+    if hist == 'refit-lam':
+        def leaves():
+            for t in gam.terms:
+                if t.isintercept:
+                    continue
+                for s_ in (t._terms if t.istensor else [t]):
+                    yield s_
+        saved = [s_.lam for s_ in leaves()]
+        for s_ in leaves():
+            s_.lam = [(1e3 if v < 1.0 else 1e-3) for v in np.atleast_1d(s_.lam)]
+        st0, _ = fitgen.fit_quiet(gam, X, y, w)
+        for s_, v in zip(leaves(), saved):
+            s_.lam = v
+        hist += ':' + st0
+    elif hist == 'refit-data':
+        h = max(X.shape[0] // 2, 1)
+        st0, _ = fitgen.fit_quiet(gam, X[:h], y[:h], None if w is None else w[:h])
+        hist += ':' + st0
     cap = Capture()
     gam.callbacks = list(gam.callbacks) + [cap]
     status, out = fitgen.fit_quiet(gam, X, y, w)
-    res = dict(case=case, status=status, msg=out if status != 'ok' else '', desc=b['desc'])
+    res = dict(case=case, status=status, msg=out if status != 'ok' else '', desc=b['desc'], history=hist)
     if status != 'ok':
         return res
     converged = 'did not converge' not in out
@@ -174,6 +195,8 @@ def run(ctx):
         c = r['case']
         ctx.count('fit status', r['status'] + ('/converged' if r.get('converged') else ('/not-converged' if r['status'] == 'ok' else '')))
         ctx.count('pair', '%s %s/%s' % (c['cls'], c['dist'], c['link']))
+        ctx.count('response units', '%g' % c.get('y_scale', 1.0))
+        ctx.count('history before the judged fit', r.get('history', 'none'))
         if r['status'] not in ('ok', 'ValueError', 'generator-rejected', 'nonfinite-coef', 'nonfinite-oracle'):
             ctx.case(st_or, dict(case=c), nontrivial=True)
             ctx.fail(st_or, dict(kind='exception', exc=r['status']), dict(case=c), observed='%s: %s' % (r['status'], r['msg']),
@@ -218,7 +241,7 @@ def run(ctx):
         if not fd_ok:
             ctx.count('oracle', 'fd-mismatch of the analytic gradient (non-smooth point or cancellation)')
         if 'closed_form_pred' in r and oracle_bad is None:
-            dcf = float(np.abs(r['closed_form_pred'] - r['pred']).max() / (1 + np.abs(r['pred']).max()))
+            dcf = float(np.abs(r['closed_form_pred'] - r['pred']).max() / (max(np.abs(r['pred']).max(), np.abs(r['closed_form_pred']).max()) + 1e-300))
             if dcf > max(1e-6, thr):
                 oracle_bad = 'fitted values differ from the closed-form penalised WLS solution by %.3g (relative)' % dcf
         if oracle_bad:
@@ -244,7 +267,7 @@ def run(ctx):
         if 'closed_form_pred' in r:
             ctx.case(st_cf, sig, nontrivial=nontriv)
             mp_ = r['B'] @ beta1
-            dm = float(np.abs(mp_ - r['pred']).max() / (1 + np.abs(r['pred']).max()))
+            dm = float(np.abs(mp_ - r['pred']).max() / (max(np.abs(r['pred']).max(), np.abs(mp_).max()) + 1e-300))
             if dm > max(1e-6, thr) and not oracle_bad:
                 ctx.disagree(st_cf, sig, dict(pred=r['pred'][:5].tolist()), dict(model=mp_[:5].tolist(), reldiff=dm), 'model closed form differs from the fitted values')
     ctx.partial.append('solve_correct is proved under the LAPACK/Cholesky contracts (validated numerically each run), not for LAPACK itself; IEEE rounding and the sqrt(eps) ridge are not modelled')
